@@ -15,6 +15,7 @@ import (
 	"encoding/hex"
 	"fmt"
 	"net"
+	"os"
 	"sort"
 	"strconv"
 	"strings"
@@ -371,6 +372,40 @@ func c05Parse(t []string) (cfg string, tpls [][]c05Field, ops [][]string) {
 	return
 }
 
+// c05TwinView: every flow of the process with its flags and elements, httpVals left out.
+func c05TwinView(ap *intermediate.AggregationProcess) map[string]string {
+	out := map[string]string{}
+	for _, f := range ap.VerifAggFlows() {
+		var sb strings.Builder
+		fmt.Fprintf(&sb, "%s %s %s", ShowBool(f.ReadyToSend), ShowBool(f.Filled), ShowBool(f.IsIPv4))
+		for _, e := range f.Elements {
+			if e.GetName() == "httpVals" {
+				continue
+			}
+			sb.WriteString(" ")
+			sb.WriteString(c05ShowElem(e))
+		}
+		out[c05KeyString(f.Key)] = sb.String()
+	}
+	return out
+}
+
+// c05HttpVal: the httpVals string carried by the i-th operation of the twin run (valid JSON
+// maps with fresh and with repeated transaction ids, the empty string, and text that is not JSON).
+func c05HttpVal(i int) string {
+	switch i % 5 {
+	case 0:
+		return fmt.Sprintf(`{"%d":"{\"hostname\":\"h%d\",\"url\":\"/x\",\"status\":\"200\"}"}`, i, i)
+	case 1:
+		return `{"1":"GET_/a"}`
+	case 2:
+		return "-"
+	case 3:
+		return "not-json"
+	}
+	return fmt.Sprintf(`{"%d":"a","%d":"b"}`, i, i+1)
+}
+
 func c05One(caseToks []string) string {
 	cfgName, tpls, ops := c05Parse(caseToks)
 	cfg := c05GetConfig(cfgName)
@@ -378,11 +413,53 @@ func c05One(caseToks []string) string {
 		return "bad-config"
 	}
 	run := &c05Run{ap: c05NewProcess(cfg), prev: map[intermediate.FlowKey]string{}}
+	// httpVals differential (harness only; the JSON merge is not modelled): the same history with an
+	// extra httpVals string on every record, aggregated under the configuration that lists httpVals
+	// in NonStatsElements, must leave every other field of every flow exactly as in the main run.
+	var twin *c05Run
+	var twinTpls [][]c05Field
+	if cfgName == "std" && os.Getenv("VERIF_C05_NOTWIN") == "" {
+		twin = &c05Run{ap: c05NewProcess(c05GetConfig("stdhttp")), prev: map[intermediate.FlowKey]string{}}
+		for _, t := range tpls {
+			for _, f := range t {
+				if f.name == "httpVals" {
+					twin = nil
+				}
+			}
+			twinTpls = append(twinTpls, append(append([]c05Field{}, t...), c05Field{"httpVals", "str"}))
+		}
+	}
 	var sb strings.Builder
 	for i, op := range ops {
 		st := run.apply(tpls, op, i)
 		if i > 0 {
 			sb.WriteString(" ")
+		}
+		if twin != nil {
+			op2 := op
+			if op[0] == "R" {
+				op2 = append(append([]string{}, op...), c05HttpVal(i))
+			}
+			st2 := twin.apply(twinTpls, op2, i)
+			diff := ""
+			if st2 != st {
+				diff = "status:" + st2
+			} else if st != "panic" {
+				a, b := c05TwinView(run.ap), c05TwinView(twin.ap)
+				if len(a) != len(b) {
+					diff = "flows"
+				}
+				for k, v := range a {
+					if b[k] != v {
+						diff = "flow:" + strings.ReplaceAll(k, " ", ",")
+					}
+				}
+			}
+			if diff != "" {
+				// not an observation the model can produce: reported as a disagreement on this case
+				fmt.Fprintf(&sb, "; HTTPVALS-DIFFERENTIAL op=%d %s ", i, diff)
+				twin = nil
+			}
 		}
 		if st == "panic" {
 			sb.WriteString("; panic")
@@ -840,6 +917,7 @@ func runC05(env *Env) {
 		}
 		return
 	}
+	env.Count("differential:httpVals-twin-on-std-histories")
 	thorough := env.Thorough()
 	// short histories (these also feed the in-Coq sample)
 	nshort, nlong, nbreach, nill := 150, 60, 60, 60
@@ -865,7 +943,7 @@ func runC05(env *Env) {
 	}
 	depth := 2
 	if thorough {
-		depth = 3
+		depth = 4
 	}
 	c05Enumerate(env, "std", depth, func(l string) { emit(l); env.Count("history:enumerated") })
 }
